@@ -5,6 +5,7 @@ Model driver: one request per line on stdin, one answer per line on stdout.
 import GoSandbox.Model.DriverC18
 import GoSandbox.Model.DriverC09
 import GoSandbox.Model.DriverC15
+import GoSandbox.Model.DriverC08
 
 open GoSandbox
 
@@ -15,6 +16,7 @@ def dispatch (ws : List String) : Option String :=
     if cmd.startsWith "c18." then Driver.C18.handle ws
     else if cmd.startsWith "c09." then Driver.C09.handle ws
     else if cmd.startsWith "c15." then Driver.C15.handle ws
+    else if cmd.startsWith "c08." then Driver.C08.handle ws
     else none
 
 partial def loop (hin hout : IO.FS.Stream) : IO Unit := do
